@@ -121,8 +121,9 @@ OPS = {"add": "+=", "sub": "-=", "mul": "*=", "div": "/="}
 
 
 class Hist:
-    def __init__(self, rng, names, p_invalid):
+    def __init__(self, rng, names, p_invalid, prof=None):
         self.rng = rng
+        self.prof = prof or dict(barevar=0.3, varatom=True, destr=True, longcol=True)
         self.names = names
         self.env = {}            # name -> dict(type=T, mut=bool)
         self.src = []
@@ -154,7 +155,10 @@ class Hist:
         if self.env and rng.random() < 0.3:
             n = rng.choice(self.defined())
             return n, ["var", q(n)], self.env[n]["type"]
-        return rand_literal(rng, self.env)
+        return self.literal()
+
+    def literal(self, kind=None):
+        return rand_literal(self.rng, self.env, kind, allow_var=self.prof["varatom"])
 
     # -- statement generators; each returns True if it emitted something
     def g_define(self, invalid):
@@ -177,11 +181,11 @@ class Hist:
         if not self.undefined():
             return False
         x = rng.choice(self.undefined())
-        if self.env and rng.random() < 0.3:
+        if self.env and rng.random() < self.prof["barevar"]:
             y = rng.choice(self.defined())
             e = (y, ["var", q(y)], self.env[y]["type"])             # bare variable: shares in mech
         else:
-            e = rand_literal(rng, self.env)
+            e = self.literal()
         self.emit("def", "%s%s := %s" % (pre, x, e[0]), ["def", int(mu), q(x), e[1]], False)
         self.env[x] = dict(type=e[2], mut=mu)
         return True
@@ -212,12 +216,12 @@ class Hist:
                     return False
                 t = self.env[x]["type"]
                 if t.kind == "num":
-                    e = rand_literal(rng, self.env, rng.choice(["mat", "tup", "set"]))
+                    e = self.literal(rng.choice(["mat", "tup", "set"]))
                 elif t.kind == "mat":
                     if t.r == 1 and t.c >= 2:
-                        e = rand_literal(rng, self.env, "num") if rng.random() < 0.5 else lit_of_type(rng, T("mat", r=t.c, c=1)) + (None,)
+                        e = self.literal("num") if rng.random() < 0.5 else lit_of_type(rng, T("mat", r=t.c, c=1)) + (None,)
                     else:
-                        e = rand_literal(rng, self.env, rng.choice(["num", "rec"]))
+                        e = self.literal(rng.choice(["num", "rec"]))
                 else:
                     e = self.any_expr()
             self.emit("asg", "%s = %s" % (x, e[0]), ["asg", q(x), e[1]], True)
@@ -281,29 +285,29 @@ class Hist:
                 x = self.bad_target()
                 if x is None:
                     return False
-                e = rand_literal(rng, self.env, rng.choice(["num", "mat"]))
+                e = self.literal(rng.choice(["num", "mat"]))
             else:
                 x = self.pick(lambda e: e["mut"])
                 if x is None:
                     return False
                 t = self.env[x]["type"]
                 if t.kind == "num":
-                    e = rand_literal(rng, self.env, "mat")
+                    e = self.literal("mat")
                 elif t.kind == "mat":
                     if t.r == 1 and t.c >= 2:
                         e = lit_of_type(rng, T("mat", r=t.c, c=1), nonneg=True)
                     elif t.c == 1 and t.r >= 2:
                         e = lit_of_type(rng, T("mat", r=1, c=t.r), nonneg=True)
                     else:
-                        e = rand_literal(rng, self.env, rng.choice(["set", "tup"]), allow_var=False)
+                        e = self.literal(rng.choice(["set", "tup"]))
                 elif t.kind == "tab":
                     if rng.random() < 0.5:
                         op = "sub"
                         e = self.row_literal(t)
                     else:
-                        e = rand_literal(rng, self.env, "num")
+                        e = self.literal("num")
                 else:
-                    e = rand_literal(rng, self.env, "num")
+                    e = self.literal("num")
             self.emit("op", "%s %s %s" % (x, OPS[op], e[0]), ["op", q(x), op, e[1]], True)
             return True
         x = self.pick(lambda e: e["mut"] and e["type"].kind in ("num", "mat", "tab"))
@@ -352,7 +356,7 @@ class Hist:
                 if x is None:
                     return False
                 f = rng.choice(FIELDS)
-                e = rand_literal(rng, self.env, "num")
+                e = self.literal("num")
             else:
                 x = self.pick(lambda e: e["mut"])
                 if x is None:
@@ -363,10 +367,10 @@ class Hist:
                     c = rng.random()
                     if c < 0.4:
                         f = rng.choice([g for g in FIELDS + ["zz"] if g not in fs])
-                        e = rand_literal(rng, self.env, "num")
+                        e = self.literal("num")
                     elif c < 0.7:
                         f = rng.choice(fs)
-                        e = rand_literal(rng, self.env, rng.choice(["mat", "set"]))
+                        e = self.literal(rng.choice(["mat", "set"]))
                     else:
                         f = rng.choice(fs)
                         y = self.pick(lambda e: e["type"].kind == "num")
@@ -376,19 +380,19 @@ class Hist:
                 elif t.kind == "tab":
                     c = rng.random()
                     f = rng.choice(t.cols)
-                    if c < 0.45:
+                    if c < 0.45 and self.prof["longcol"]:
                         e = self.col_literal(t.rows + rng.randint(1, 2))       # longer than the table
                     elif c < 0.65:
                         d = [float(rng.randint(0, 9)) for _ in range(t.rows)]
                         e = (mat_src(1, t.rows, d), ["mat", 1, t.rows, [nsx(v) for v in d]])   # a row vector
                     elif c < 0.8:
-                        e = rand_literal(rng, self.env, "num")
+                        e = self.literal("num")
                     else:
                         f = "zz"
                         e = self.col_literal(t.rows)
                 else:
                     f = rng.choice(FIELDS)
-                    e = rand_literal(rng, self.env, "num")
+                    e = self.literal("num")
             self.emit("fld", "%s.%s = %s" % (x, f, e[0]), ["fld", q(x), q(f), e[1]], True)
             return True
         x = self.pick(lambda e: e["mut"] and (e["type"].kind == "tab" or (e["type"].kind == "rec" and any(ft.kind == "num" for _, ft in e["type"].fields))))
@@ -400,7 +404,7 @@ class Hist:
             e = self.col_literal(t.rows)
         else:
             f = rng.choice([g for g, ft in t.fields if ft.kind == "num"])
-            e = rand_literal(rng, self.env, "num")
+            e = self.literal("num")
         self.emit("fld", "%s.%s = %s" % (x, f, e[0]), ["fld", q(x), q(f), e[1]], False)
         return True
 
@@ -408,7 +412,7 @@ class Hist:
         rng = self.rng
         if invalid:
             r = rng.random()
-            e = rand_literal(rng, self.env, "num")
+            e = self.literal("num")
             if r < 0.4:
                 x = self.bad_target()
                 if x is None:
@@ -425,7 +429,7 @@ class Hist:
                         k = rng.choice([0, len(t.elems) + 1])
                     else:
                         k = rng.randint(1, len(t.elems))
-                        e = rand_literal(rng, self.env, rng.choice(["mat", "set"]))
+                        e = self.literal(rng.choice(["mat", "set"]))
                 else:
                     k = 1
             self.emit("tix", "%s.%d = %s" % (x, k, e[0]), ["tix", q(x), k, e[1]], True)
@@ -435,7 +439,7 @@ class Hist:
             return False
         t = self.env[x]["type"]
         k = rng.choice([i + 1 for i, et in enumerate(t.elems) if et.kind == "num"])
-        e = rand_literal(rng, self.env, "num")
+        e = self.literal("num")
         self.emit("tix", "%s.%d = %s" % (x, k, e[0]), ["tix", q(x), k, e[1]], False)
         return True
 
@@ -446,7 +450,7 @@ class Hist:
         if y is not None and rng.random() < 0.45:
             e = (y, ["var", q(y)], self.env[y]["type"])
         else:
-            e = rand_literal(rng, self.env, "tup")
+            e = self.literal("tup")
         n = len(e[2].elems)
         if invalid:
             c = rng.random()
@@ -461,7 +465,7 @@ class Hist:
                 xs = [x, x]                                                          # the same target twice
             elif c < 0.85 and len(und) >= 2:
                 xs = rng.sample(und, 2)
-                e = rand_literal(rng, self.env, rng.choice(["num", "mat", "set"])) if rng.random() < 0.6 or not self.env else None
+                e = self.literal(rng.choice(["num", "mat", "set"])) if rng.random() < 0.6 or not self.env else None
                 if e is None:
                     z = self.pick(lambda en: en["type"].kind != "tup")
                     if z is None:
@@ -491,9 +495,9 @@ class Hist:
         rng = self.rng
         invalid = rng.random() < self.p_invalid
         gens = [(self.g_define, 5 if len(self.env) < len(self.names) else 2), (self.g_assign, 4), (self.g_index, 3), (self.g_op, 4),
-                (self.g_field, 3), (self.g_tix, 2), (self.g_destr, 2)]
+                (self.g_field, 3), (self.g_tix, 2), (self.g_destr, 2 if self.prof["destr"] else 0)]
         if len(self.env) == 0:
-            gens = [(self.g_define, 8), (self.g_destr, 1), (self.g_assign, 1)]
+            gens = [(self.g_define, 8), (self.g_destr, 1 if self.prof["destr"] else 0), (self.g_assign, 1)]
         for _ in range(12):
             g = rng.choices([g for g, _ in gens], [w for _, w in gens])[0]
             if g(invalid):
@@ -571,11 +575,17 @@ def generate(tier, rng):
         names = rng.sample(NAMES_POOL, 5)
         r = rng.random()
         p_inv = 0.4 if r < 0.7 else (0.15 if r < 0.85 else 0.65)
-        h = Hist(rng, names, p_inv)
+        if rng.random() < 0.4:
+            prof = dict(barevar=0.0, varatom=False, destr=False, longcol=False)         # nothing that shares storage
+            stream = "random-closed"
+        else:
+            prof = dict(barevar=rng.choice([0.0, 0.3]), varatom=rng.random() < 0.5, destr=rng.random() < 0.4, longcol=rng.random() < 0.5)
+            stream = "random"
+        h = Hist(rng, names, p_inv, prof)
         length = rng.randint(3, 25)
         for _ in range(length):
             h.step()
-        yield make_case(h, "random")
+        yield make_case(h, stream)
 
 
 def shrink(case):
